@@ -864,7 +864,15 @@ def timed_plain(c):
 def timed_slice(chk, bins, flavours, n, seed_off, what):
     """sequences mixing recv / try_recv / try_recv_timeout against senders acting before or during the call, on several builds (oracle only)"""
     rng = random.Random(chk.seed + seed_off)
-    cases = []
+    # two fixed sequences first: a blocking receive right after an 'empty' try_recv / timed receive has to wait for the message
+    cases = [{"id": 1, "ops": ["t", "B25", "t", "T1500", "B25", "d"], "model": [],
+              "expect": ["OEmpty", "OMsg", "OEmpty", "OEmpty", "OMsg"],
+              "meta": [{"op": "t", "timeout_us": None, "state": "QIdle"}, {"op": "B25", "timeout_us": None, "state": "QMsgLater"}, {"op": "t", "timeout_us": None, "state": "QIdle"},
+                       {"op": "T1500", "timeout_us": 1500, "state": "QIdle"}, {"op": "B25", "timeout_us": None, "state": "QMsgLater"}]},
+             {"id": 2, "ops": ["s10", "t", "t", "B25", "T300", "B25"], "model": [],
+              "expect": ["OMsg", "OEmpty", "OMsg", "OEmpty", "OMsg"],
+              "meta": [{"op": "t", "timeout_us": None, "state": "QMsg"}, {"op": "t", "timeout_us": None, "state": "QIdle"}, {"op": "B25", "timeout_us": None, "state": "QMsgLater"},
+                       {"op": "T300", "timeout_us": 300, "state": "QIdle"}, {"op": "B25", "timeout_us": None, "state": "QMsgLater"}]}]
     while len(cases) < n:
         ops, model, expect, meta = gen_timed(rng, rng.randint(4, 12))
         if model:
@@ -984,6 +992,11 @@ def check_C10(chk):
     for npk in (1, 2, 3):
         for k in range(0, 1 + (1 if npk == 1 else 3 + npk) + 2):
             ccases.append({"id": next(cid), "len": shapes[npk], "k": k, "survivor": 1, "natt": 0, "nreg": 0, "observe": "timeout_idle", "npk": npk, "S": 4096})
+    # ... and timed receives (100 ms) issued while the sender is still alive: it hangs 300 ms after the first fragment and dies at its next call
+    for npk in (2, 3):
+        for k in range(3, 3 + npk + 1):
+            for surv in (0, 1):
+                ccases.append({"id": next(cid), "len": shapes[npk], "k": k, "survivor": surv, "natt": 0, "nreg": 0, "observe": "timeout_live", "npk": npk, "S": 4096})
     citems = PCN.run_crash(bins["default"], 4096, ccases)
     for it in citems:
         why = PCN.crash_oracle(it)
